@@ -908,7 +908,10 @@ func lexHeaderParam(l *lexer) stateFn {
 func lexCss(l *lexer) stateFn {
 	l.next()
 	l.ignore()
-	for l.next() != '}' {
+	for r := l.next(); r != '}'; r = l.next() {
+		if r == eof {
+			return l.errorf("unclosed tag")
+		}
 	}
 	l.backup()
 	l.emit(itemText)
